@@ -2,7 +2,7 @@
 NOTES = ("Runtime monitoring only: every verdict is an oracle observing executions of the real code built from /repo's working tree. Exit 0 = held on what was observed, "
          "exit 1 + VIOLATION line = refuted with replay file, exit 2 + INCONCLUSIVE line = nothing can be said (never folded into the others). "
          "Known findings: /verif/known_findings.json (3 open: two pinned by existing tests, one whose repair is not small and safe; the fix: commits are listed as fixed and suppress nothing). "
-         "Validation of the monitors: 203 independent seeded changes in /verif/seeded (tools/runseeded.sh), every fix reversed (tools/regress.sh), behaviour-preserving refactors in "
+         "Validation of the monitors: 223 independent seeded changes in /verif/seeded (tools/runseeded.sh), every fix reversed (tools/regress.sh), behaviour-preserving refactors in "
          "/verif/neutral (tools/runneutral.sh), syntactic mutation screening (tools/mutscreen.py, mutscreen/SUMMARY.md). Thorough tier adds a coverage-based reach audit to the evidence.")
 HOOK_COMMITS = ["f9ac6f7", "155194a"]
 
@@ -32,7 +32,7 @@ add("C06", "exploration",
     "Fragments are what the wrapped payloader returned; padding packets' timestamp and size-vs-MTU are not judged (the property does not fix them).")
 add("C07", "exploration",
     "Go race detector + client-boundary history recording checked offline by porcupine (linearizability against a sequential (last, rollovers) model) and by an O(n log n) unique-value real-time-order checker; exhaustive sequential pass over all 65 536 start values; rollover-count walks at 2^8..2^64 completed rollovers (state hook) and a black-box walk of 2^32 + 2^18 values",
-    "All 65 536 start values; the rollover count followed across every power-of-two magnitude (hook; thorough and hook-less builds also draw 2^32 values from one sequencer); 10k/200k short concurrent histories with the wrap inside and 3/100 long histories on the race-instrumented build with injected yields (client side and at an in-method hook); 800k/8M random sequencers.",
+    "All 65 536 start values; the rollover count followed across every power-of-two magnitude (hook; thorough and hook-less builds also draw 2^32 values from one sequencer); 10k/200k short concurrent histories with the wrap inside and 3/100 long histories and 8000/120 000 wrap storms (client-local oracle, polling readers) on the race-instrumented build with injected yields (client side and at an in-method hook); 800k/8M random sequencers.",
     "Only schedules the Go scheduler produced were observed; a race-free non-atomic change is found probabilistically (the evidence counts overlapping operations and distinct issue orders).")
 add("C08", "exploration",
     "runtime monitor: recover() guard, MTU bound, input immutability (within len, in spare capacity, and write-protected inputs whose stores fault), address-range overlap monitor (fragments vs caller buffers, fragments vs each other, hooked retained state), scribble twin across calls, interleaved unrelated instance, Go race detector tripwire",
